@@ -382,8 +382,8 @@ package mqtt
 // the refused filters, in the order of the request: the k-th refusal (counting return codes 0x80) names the filter at its position
 //@ loop[reveal=cnt128] 2: invariant len(err) == cnt128(arr(returnCodes), off(returnCodes), rangeindex + 1)
 //@ loop[reveal=cnt128] 2: invariant forall(i, 0, rangeindex + 1, cnt128(arr(returnCodes), off(returnCodes), i) >= 0 && (returnCodes[i] == 128 ==> cnt128(arr(returnCodes), off(returnCodes), i) < cnt128(arr(returnCodes), off(returnCodes), rangeindex + 1)))
-//@ loop[reveal=cnt128] 2: invariant forall(i, 0, rangeindex + 1, returnCodes[i] == 128 ==> same(err[cnt128(arr(returnCodes), off(returnCodes), i)], topicFilters[i]))
-//@ at[C11,reveal=cnt128,id=refusals_in_order] send done#2: assert hastype(v, SubscribeError) && len(unbox(v, SubscribeError)) == cnt128(arr(returnCodes), off(returnCodes), len(returnCodes)) && forall(i, 0, len(returnCodes), returnCodes[i] == 128 ==> same(unbox(v, SubscribeError)[cnt128(arr(returnCodes), off(returnCodes), i)], topicFilters[i]))
+//@ loop 2: invariant forall(i, 0, rangeindex + 1, returnCodes[i] == 128 ==> same(err[cnt128(arr(returnCodes), off(returnCodes), i)], topicFilters[i]))
+//@ at[C11,id=refusals_in_order] send done#2: assert hastype(v, SubscribeError) && len(unbox(v, SubscribeError)) == cnt128(arr(returnCodes), off(returnCodes), len(returnCodes)) && forall(i, 0, len(returnCodes), returnCodes[i] == 128 ==> same(unbox(v, SubscribeError)[cnt128(arr(returnCodes), off(returnCodes), i)], topicFilters[i]))
 //@ ensures[C11,C13] len(c.peek) < 3 || c.peek[0]*256 + c.peek[1] == 0 || (c.peek[0]*256 + c.peek[1]) - (c.peek[0]*256 + c.peek[1]) % 8192 != 24576 ==> err != nil && forall(k, has(c.perPacketID, k) == old(has(c.perPacketID, k)))
 //@ ensures[C11,C13] forall(j, 0, len(c.peek) - 2, c.peek[2+j] == 0 || c.peek[2+j] == 1 || c.peek[2+j] == 2 || c.peek[2+j] == 128) || (err != nil && forall(k, has(c.perPacketID, k) == old(has(c.perPacketID, k))))
 //@ ensures[C11] forall(k, len(c.peek) >= 2 && k != c.peek[0]*256 + c.peek[1] ==> has(c.perPacketID, k) == old(has(c.perPacketID, k)) && at(c.perPacketID, k) == old(at(c.perPacketID, k)))
